@@ -1,6 +1,8 @@
 """C14 - kept comments are verbatim, never invented or duplicated, and stay attached at the documented sites."""
 from __future__ import annotations
 
+import re
+
 import itertools
 
 from .. import runner as R
@@ -125,8 +127,9 @@ def render_with(tree, placements):
 
 def split_verbatim(token_text, source):
     """decompose an output comment token into source comments (joined by single spaces); None if impossible"""
-    norm = {s.strip(): s for s in source}
-    t = token_text.strip()
+    # blanks and tabs around a comment are layout; anything else (a stray carriage return, say) is comment text
+    norm = {s.strip(" \t"): s for s in source}
+    t = token_text.strip(" \t")
     if t in norm:
         return [t]
     keys = sorted(norm, key=len, reverse=True)
@@ -173,7 +176,7 @@ def judge(tree, placements):
             return "not_verbatim", "output comment %r is not (a space-joined sequence of) source comments %r" % (t.text, source_comments), text
         used += parts
     for c in set(used):
-        if used.count(c) > [s.strip() for s in source_comments].count(c):
+        if used.count(c) > [s.strip(" \t") for s in source_comments].count(c):
             return "duplicated", "source comment %r is written %d times" % (c, used.count(c)), text
     try:
         a = D.typed(strip_bk(impl.loads(out)))
@@ -279,7 +282,7 @@ def init_worker():
 
 def units(tier):
     nb = len(bases(tier))
-    us = [("SCHED", i, 16) for i in range(16)] + [("PAIRS", i, k) for i in range(nb) for k in range(16)] + [("S6", i) for i in range(16)]
+    us = [("SCHED", i, 16) for i in range(16)] + [("PAIRS", i, k) for i in range(nb) for k in range(16)] + [("S6", i) for i in range(16)] + [("HAND",)]
     if tier == "thorough":
         us += [("TRIPLES", i) for i in range(nb)]
     return us
@@ -356,6 +359,86 @@ def run_base(res, idx, triples, shard=0):
                            "example": render_with(tree, [(s, "#", i + 1) for i, s in enumerate(sts[:4])])[0]}, 1)
 
 
+TRAIL_RE = re.compile(r'^[ \t]*([A-Za-z_]+)[ \t]+("[^"\n]*"|\'[^\'\n]*\'|[^\s#"\']+)[ \t]+(#[^\n]*?)\r?$', re.M)
+
+
+def judge_text(text, opts=None, trailing=False):
+    """text-level oracle: (category, message, number of source comments).  Every comment token of dumps(loads(text, comments)) is made of
+    source comments, none more often than in the source, the output loads to the content of the comment-free output; with trailing=True
+    every source line 'KEYWORD value # comment' must come back as a line that starts with KEYWORD and ends with that comment"""
+    opts = opts or {}
+    try:
+        d = impl.loads(text, include_comments=True)
+        plain = impl.loads(text)
+        out = impl.dumps(d, **opts)
+        out_plain = impl.dumps(plain, **opts)
+    except Exception:
+        return "unparsed", None, 0
+    try:
+        src = [t.text for t in RD.lex(text) if t.cls == "comment"]
+        outc = [t.text for t in RD.lex(out) if t.cls == "comment"]
+    except RD.ReadError:
+        return "unreadable", None, 0
+    used = []
+    for t in outc:
+        parts = split_verbatim(t, src)
+        if parts is None:
+            return "not_verbatim", "output comment %r is not made of source comments" % t[:100], len(src)
+        used += parts
+    stripped = [c.strip(" \t") for c in src]
+    for c in set(used):
+        if used.count(c) > stripped.count(c):
+            return "duplicated", "comment %r occurs %d times in the source and %d times in the output" % (c[:80], stripped.count(c), used.count(c)), len(src)
+    try:
+        if D.typed(strip_bk(impl.loads(out))) != D.typed(strip_bk(impl.loads(out_plain))):
+            return "content", "output with comments loads to different content", len(src)
+    except Exception as e:
+        return "output_unparsed", "output with comments does not load: %s" % impl.exc_name(e), len(src)
+    if trailing:
+        nl = opts.get("newlinechar", "\n")
+        out_lines = [ln.strip() for ln in out.split(nl)]
+        for m in TRAIL_RE.finditer(text):
+            key, comment = m.group(1).upper(), m.group(3).strip()
+            if key in ("END",) or key in DOC_OPENERS:
+                continue
+            if not any(ln.upper().startswith(key + " ") and ln.endswith(comment) for ln in out_lines):
+                return "trail_lost", "the comment %r at the end of the %s line is not at the end of that keyword's line in the output" % (comment, key), len(src)
+    return None, None, len(src)
+
+
+HAND_TEXTS = [
+    ("bare values ending in END", 'LAYER\n  NAME backend # c1\n  GROUP weekend # c2\n  TYPE POINT # c3\n  CLASSITEM Legend # c4\n  DATA "the end" # c5\nEND # c6\n'),
+    ("root METADATA", '# above 1\n/* above 2 */\nMETADATA\n  "a" "b" # t1\n  # own line\n  "c" "d"\nEND\n'),
+    ("root VALIDATION", '# above v\nVALIDATION\n  "k" "^v$" # t\nEND # e\n'),
+    ("root CONNECTIONOPTIONS", '/* above\n   two lines */\nCONNECTIONOPTIONS\n  "k" "v"\nEND\n'),
+    ("nested kv blocks", 'LAYER\n  TYPE POINT\n  # m1\n  # m2\n  METADATA\n    "a" "b"\n  END\n  /* v */\n  VALIDATION\n    "k" "v"\n  END\n  # c\n  CONNECTIONOPTIONS\n    "o" "p"\n  END\nEND\n'),
+    ("multi-line comment above nested blocks", 'MAP\n  NAME "m" # n\n  /* first\n     second\n       third */\n  LAYER\n    TYPE POINT\n    /* a\n    b */\n    CLASS\n      NAME "c" # cn\n    END\n  END\nEND\n'),
+    ("values ending in keywords", 'CLASS\n  NAME "x END" # q\n  TITLE legend # r\n  GROUP blend # s\nEND\n'),
+]
+
+
+def run_hand(res):
+    """hand-written documents (root key-value blocks, bare values that end in END, multi-line comments above nested blocks), LF and CRLF,
+    default options / other indents / CRLF output"""
+    optsets = [{}, {"indent": 2}, {"indent": 0}, {"newlinechar": "\r\n"}, {"indent": 1, "spacer": "\t", "end_comment": False}]
+    for label, text in HAND_TEXTS:
+        for crlf in (False, True):
+            t = text.replace("\n", "\r\n") if crlf else text
+            for o in optsets:
+                cat, msg, _ = judge_text(t, o, trailing=True)
+                res["evals"] += 1
+                if cat is None:
+                    R.add_outcome(res, "comments_ok")
+                    res["states"].add(R.h64((label, crlf, str(o))))
+                elif cat in ("unparsed", "unreadable"):
+                    R.add_outcome(res, "hand_" + cat)
+                    R.add_violation(res, "hand_%s|%s" % (cat, label), "hand-written document is not loaded / read", {"text": t, "opts": o}, None)
+                else:
+                    R.add_outcome(res, cat)
+                    R.add_violation(res, "%s|hand|%s|%s" % (cat, label, "crlf" if crlf else "lf"), "%s (options %r)" % (msg, o), {"text": t, "opts": o}, None)
+    R.add_sub(res, "hand-written commented documents x line endings x option sets", res["evals"])
+
+
 def run_corpus(res, shard):
     total_comments = 0
     for f in corpus.files()[shard::16]:
@@ -363,42 +446,15 @@ def run_corpus(res, shard):
         if text is None:
             continue
         rel = f.replace(R.REPO + "/", "")
-        try:
-            d = impl.loads(text, include_comments=True)
-            plain = impl.loads(text)
-            out = impl.dumps(d)
-            out_plain = impl.dumps(plain)
-        except Exception:
+        cat, msg, ncomments = judge_text(text)
+        if cat == "unparsed":
             R.add_outcome(res, "corpus_unparsed")
             continue
-        try:
-            src = [t.text for t in RD.lex(text) if t.cls == "comment"]
-            outc = [t.text for t in RD.lex(out) if t.cls == "comment"]
-        except RD.ReadError:
+        if cat == "unreadable":
             R.add_skip(res, "corpus file not readable by the independent lexer")
             continue
-        total_comments += len(src)
+        total_comments += ncomments
         res["evals"] += 1
-        cat = msg = None
-        used = []
-        for t in outc:
-            parts = split_verbatim(t, src)
-            if parts is None:
-                cat, msg = "not_verbatim", "output comment %r is not made of source comments" % t[:100]
-                break
-            used += parts
-        if cat is None:
-            stripped = [s.strip() for s in src]
-            for c in set(used):
-                if used.count(c) > stripped.count(c):
-                    cat, msg = "duplicated", "comment %r occurs %d times in the source and %d times in the output" % (c[:80], stripped.count(c), used.count(c))
-                    break
-        if cat is None:
-            try:
-                if D.typed(strip_bk(impl.loads(out))) != D.typed(strip_bk(impl.loads(out_plain))):
-                    cat, msg = "content", "output with comments loads to different content"
-            except Exception as e:
-                cat, msg = "output_unparsed", "output with comments does not load: %s" % impl.exc_name(e)
         if cat is None:
             R.add_outcome(res, "comments_ok")
             res["states"].add(R.h64(rel))
@@ -414,6 +470,8 @@ def run_unit(unit):
         run_sched(res, unit[1], unit[2])
     elif unit[0] == "S6":
         run_corpus(res, unit[1])
+    elif unit[0] == "HAND":
+        run_hand(res)
     else:
         run_base(res, unit[1], unit[0] == "TRIPLES", unit[2] if len(unit) > 2 else 0)
     return res
@@ -435,6 +493,9 @@ def describe(tier):
 
 
 def replay(case):
+    if "opts" in case and "text" in case:
+        cat, msg, _ = judge_text(case["text"], case["opts"], trailing=True)
+        return {"category": cat, "message": msg} if cat else None
     if "file" in case:
         return None
     tree = D.undescribe(case["tree"])
